@@ -727,6 +727,37 @@ fn exec_stack(line: &str, rep: &mut CaseReport) {
         }
     }
     rep.count_n("session.full", n_full);
+    // identity of a channel overrun: how many chunks were waiting, unread, when the first one
+    // was dropped (the capacity, if the reader had not started yet)
+    let full_ident: String = {
+        let mut waiting: HashMap<Ep, usize> = HashMap::new();
+        let mut reading: std::collections::HashSet<Ep> = Default::default();
+        let mut id = String::from("stream-hole channel-full");
+        for e in &run.events {
+            match e {
+                SEv::Rx { demux, outcome } => {
+                    let SEv::Demux { remote, .. } = &run.events[*demux] else { continue };
+                    match outcome {
+                        sv::ReceiveOutcome::Queued | sv::ReceiveOutcome::Stored => *waiting.entry(*remote).or_insert(0) += 1,
+                        sv::ReceiveOutcome::Full => {
+                            id = if reading.contains(remote) {
+                                "stream-hole channel-full reader-active".to_string()
+                            } else {
+                                format!("stream-hole channel-full first-drop-after-{}-unread", waiting.get(remote).copied().unwrap_or(0))
+                            };
+                            break;
+                        }
+                        _ => {}
+                    }
+                }
+                SEv::Read { remote, .. } => {
+                    reading.insert(*remote);
+                }
+                _ => {}
+            }
+        }
+        id
+    };
     if let Some(g) = gap_completed {
         rep.count(if g { "accept.gap.demux-ran-inside" } else { "accept.gap.demux-excluded" });
     }
@@ -807,7 +838,7 @@ fn exec_stack(line: &str, rep: &mut CaseReport) {
                 } else if any_permuted {
                     ("writes reached Tcb::send out of program order", "stream-reordered handoff")
                 } else if n_full > 0 {
-                    ("a chunk found the socket's channel full and was dropped (slow reader)", "stream-hole channel-full")
+                    ("a chunk found the socket's channel full and was dropped (slow reader)", full_ident.as_str())
                 } else if run.status == "timedout" && got.len() < want.len() && got[..] == want[..got.len()] {
                     ("the stream stopped short (a correct prefix arrived)", "stream-incomplete")
                 } else {
@@ -904,8 +935,9 @@ fn gen_sizes(rng: &mut Rng, k: usize, budget: u64) -> Vec<u64> {
     v
 }
 
-fn gen_stack(rng: &mut Rng, mode: RtMode, tcp: bool) -> Scn {
-    let paused = mode == RtMode::Paused;
+/// `flavour_set`: fault-free and small enough to run in real time on the multi_thread runtimes too
+fn gen_stack(rng: &mut Rng, mode: RtMode, tcp: bool, flavour_set: bool) -> Scn {
+    let paused = !flavour_set;
     let n = match rng.below(6) {
         0..=2 => 1,
         3 | 4 => rng.range(2, 3) as usize,
@@ -1252,7 +1284,7 @@ fn run_one_case(spec: &str) -> CaseReport {
 }
 
 const RULE_PAIR: &str = "connected UDP socket pair on a loss-free network, paused current_thread runtime; 4..30 ops per case: datagrams of 0..40 bytes, recv(n) with n in {0,1,len-1,len,len+1,2*len,len+2,all,all+1,1000} (len = head message, all = everything pending) blocking and non-blocking, recv_msg; 1 in 25 cases floods 250..262 datagrams into the 255-slot channel before reading; non-trivial = some read ended inside the pending data or more than 8 ops; distinct = hash of the op lines";
-const RULE_STACK: &str = "full stack (SocketAPI, Tcp/Udp, Ipv4, Arp, Pci, Network): 1..6 clients against one listening server; per client 1..40 writes of 1 B..100 KB back-to-back or spaced (UDP: 1..40 datagrams of 0..2500 B), MTU in {100,120,300,576,1500,9000}, latency 0.2..5 ms, on the paused runtime additionally jitter up to 3 ms, drop 1..15 % with at most 1..3 consecutive losses per direction, duplicates 3 %; delayed accept, delayed/slow reader, read sizes 1..200000; runtimes: paused current_thread and multi_thread with 2/4/16 workers; fixed scenarios first (20 back-to-back writes on mt:4 and paused, small reads, accept-gap injection, slow reader beyond 255 chunks, late accept beyond 255 chunks, datagrams with intruder); non-trivial = some client issues at least 2 writes; distinct = hash of the scenario line";
+const RULE_STACK: &str = "full stack (SocketAPI, Tcp/Udp, Ipv4, Arp, Pci, Network): 1..6 clients against one listening server; per client 1..40 writes of 1 B..100 KB back-to-back or spaced (UDP: 1..40 datagrams of 0..2500 B), MTU in {100,120,300,576,1500,9000}, latency 0.2..5 ms, jitter up to 3 ms, drop 1..15 % with at most 1..3 consecutive losses per direction, duplicates 3 % on the paused runtime (thorough tier: jitter 0.3 ms + 1 % drop also on multi_thread); delayed accept, delayed/slow reader, read sizes 1..200000; runtimes: paused current_thread and multi_thread with 2/4/16 workers; fixed scenarios first (20 back-to-back writes on mt:4 and paused, small reads, accept-gap injection, slow reader beyond 255 chunks, late accept beyond 255 chunks, datagrams with intruder); non-trivial = some client issues at least 2 writes; distinct = hash of the scenario line";
 
 pub fn run(args: &Args) {
     if is_worker(args) {
@@ -1270,25 +1302,34 @@ pub fn run(args: &Args) {
             specs.push(format!("stack {}", f));
         }
         let mut rng = Rng::new(args.seed);
-        let mt_every: u64 = args.extra.get("mt_every").and_then(|v| v.parse().ok()).unwrap_or(6);
+        let mt_every: u64 = args.extra.get("mt_every").and_then(|v| v.parse().ok()).unwrap_or(6).max(1);
+        let reps: u64 = args.extra.get("reps").and_then(|v| v.parse().ok()).unwrap_or(1);
+        let mt_faults = args.extra.get("mt_faults").map(|v| v == "1").unwrap_or(false);
         for i in 0..args.cases {
             let mut r = rng.fork();
             let tcp = !r.chance(1, 5);
-            let mode = if i % mt_every == mt_every - 1 { RtMode::MultiThread(*r.pick(&[2usize, 4, 16])) } else { RtMode::Paused };
-            let scn = gen_stack(&mut r, mode, tcp);
-            specs.push(format!("stack {}", scn.to_line()));
-            // the same scenario on another runtime flavour
-            if i % mt_every == 0 && tcp {
-                let mut s2 = scn.clone();
-                s2.mode = RtMode::MultiThread(*r.pick(&[2usize, 4, 16]));
-                s2.jit = 0;
-                s2.drop = 0;
-                s2.dup = 0;
-                s2.dur = 6_000_000;
-                let tot: u64 = s2.writes.iter().map(|w| w.iter().sum::<u64>()).sum();
-                if tot <= 60_000 {
-                    specs.push(format!("stack {}", s2.to_line()));
+            if i % mt_every == 0 {
+                // a flavour set: the same fault-free scenario on the paused current_thread runtime
+                // and on multi_thread with 2, 4 and 16 workers (`reps` times each)
+                let mut scn = gen_stack(&mut r, RtMode::Paused, tcp, true);
+                if mt_faults && tcp && r.chance(1, 3) {
+                    // light faults on the real-time runtimes too (RTO = 100 ms of real time per loss)
+                    scn.jit = 300;
+                    scn.drop = 10;
+                    scn.maxloss = 2;
                 }
+                specs.push(format!("stack {}", scn.to_line()));
+                for k in [2usize, 4, 16] {
+                    for _ in 0..reps {
+                        let mut s2 = scn.clone();
+                        s2.mode = RtMode::MultiThread(k);
+                        s2.dur = if s2.drop > 0 { 25_000_000 } else { 8_000_000 };
+                        specs.push(format!("stack {}", s2.to_line()));
+                    }
+                }
+            } else {
+                let scn = gen_stack(&mut r, RtMode::Paused, tcp, false);
+                specs.push(format!("stack {}", scn.to_line()));
             }
         }
     } else {
